@@ -100,6 +100,110 @@ pub fn run_argmatch(l: &[Sexp]) -> (String, String) {
     }
 }
 
+#[cfg(feature = "autocomplete")]
+fn shell_op(x: &Sexp) -> Result<ShellComp, String> {
+    if let Some(m) = x.headed("file") {
+        Ok(ShellComp::File { mask: opt_static(&m[0])? })
+    } else if let Some(m) = x.headed("dir") {
+        Ok(ShellComp::Dir { mask: opt_static(&m[0])? })
+    } else if let Some(m) = x.headed("raw") {
+        Ok(ShellComp::Raw { bash: leak(hex(&m[0])?)?, zsh: leak(hex(&m[1])?)?, fish: leak(hex(&m[2])?)?, elvish: leak(hex(&m[3])?)? })
+    } else if x.headed("nothing").is_some() {
+        Ok(ShellComp::Nothing)
+    } else {
+        Err("bad op".into())
+    }
+}
+
+#[cfg(feature = "autocomplete")]
+fn show_op(op: &ShellComp) -> String {
+    let o = |m: &Option<&'static str>| m.map_or("-".to_string(), |m| to_hex(m.as_bytes()));
+    match op {
+        ShellComp::File { mask } => format!("file:{}", o(mask)),
+        ShellComp::Dir { mask } => format!("dir:{}", o(mask)),
+        ShellComp::Raw { bash, zsh, fish, elvish } => format!(
+            "raw:{}:{}:{}:{}",
+            to_hex(bash.as_bytes()),
+            to_hex(zsh.as_bytes()),
+            to_hex(fish.as_bytes()),
+            to_hex(elvish.as_bytes())
+        ),
+        ShellComp::Nothing => "nothing".to_string(),
+        #[allow(unreachable_patterns)]
+        _ => "other".to_string(),
+    }
+}
+
+/// `(comps ID (hints (flag D G H S L) (argument D G H S L MV) (command D G H NAME S) (value D G H BODY A) (meta D G H META A)
+/// (shell D G H OP A) ..) (arg HEX) (pos 0|1) (named 0|1) (prefix na | (s N) | (l HEX)))`: Complete::complete on explicit hints
+#[cfg(feature = "autocomplete")]
+pub fn run_comps(l: &[Sexp]) -> (String, String) {
+    use bpaf::verif_hooks::VerifComp;
+    let id = l[0].atom().unwrap_or("?").to_string();
+    let body = || -> Result<String, String> {
+        let mut comps = Vec::new();
+        let mut arg = String::new();
+        let (mut pos_only, mut named) = (false, false);
+        let (mut ps, mut pl): (Option<char>, Option<String>) = (None, None);
+        let flag01 = |x: &Sexp| -> bool { !x.is_atom("0") };
+        for f in &l[1..] {
+            if let Some(xs) = f.headed("hints") {
+                for x in xs {
+                    let (kind, a) = if let Some(a) = x.headed("flag") { ("flag", a) }
+                        else if let Some(a) = x.headed("argument") { ("argument", a) }
+                        else if let Some(a) = x.headed("command") { ("command", a) }
+                        else if let Some(a) = x.headed("value") { ("value", a) }
+                        else if let Some(a) = x.headed("meta") { ("meta", a) }
+                        else if let Some(a) = x.headed("shell") { ("shell", a) }
+                        else { return Err("bad hint".into()) };
+                    let depth: usize = a[0].atom()?.parse().map_err(|_| "bad depth".to_string())?;
+                    let group = opt_text(&a[1])?;
+                    let help = opt_text(&a[2])?;
+                    comps.push(match kind {
+                        "flag" => VerifComp::Flag { depth, group, help, short: short_of(&a[3])?, long: opt_static(&a[4])? },
+                        "argument" => VerifComp::Argument { depth, group, help, short: short_of(&a[3])?, long: opt_static(&a[4])?, metavar: leak(hex(&a[5])?)? },
+                        "command" => VerifComp::Command { depth, group, help, name: leak(hex(&a[3])?)?, short: short_of(&a[4])? },
+                        "value" => VerifComp::Value { depth, group, help, body: text(&a[3])?, is_argument: flag01(&a[4]) },
+                        "meta" => VerifComp::Metavariable { depth, group, help, meta: leak(hex(&a[3])?)?, is_argument: flag01(&a[4]) },
+                        _ => VerifComp::Shell { depth, group, help, script: shell_op(&a[3])?, is_argument: flag01(&a[4]) },
+                    });
+                }
+            } else if let Some(x) = f.headed("arg") {
+                arg = text(&x[0])?;
+            } else if let Some(x) = f.headed("pos") {
+                pos_only = flag01(&x[0]);
+            } else if let Some(x) = f.headed("named") {
+                named = flag01(&x[0]);
+            } else if let Some(x) = f.headed("prefix") {
+                if let Some(s) = x[0].headed("s") {
+                    ps = short_of(&s[0])?;
+                } else if let Some(s) = x[0].headed("l") {
+                    pl = Some(text(&s[0])?);
+                }
+            }
+        }
+        let r = std::panic::catch_unwind(std::panic::AssertUnwindSafe(|| {
+            bpaf::verif_hooks::verif_complete(&comps, &arg, pos_only, named, ps, pl.as_deref())
+        }));
+        Ok(match r {
+            Ok((items, ops)) => {
+                let o = |m: &Option<String>| m.as_ref().map_or("-".to_string(), |m| to_hex(m.as_bytes()));
+                let its: Vec<String> = items
+                    .iter()
+                    .map(|i| format!("{}:{}:{}:{}", to_hex(i.0.as_bytes()), to_hex(i.1.as_bytes()), o(&i.2), o(&i.3)))
+                    .collect();
+                let os: Vec<String> = ops.iter().map(show_op).collect();
+                format!("COMPLETE\t{}\t{}", its.join(";"), os.join(";"))
+            }
+            Err(_) => "PANIC\t-".to_string(),
+        })
+    };
+    match body() {
+        Ok(s) => (id, s),
+        Err(e) => (id, format!("BADCASE\t{}", e)),
+    }
+}
+
 pub fn run_cmdmatch(l: &[Sexp]) -> (String, String) {
     let id = l[0].atom().unwrap_or("?").to_string();
     let body = || -> Result<String, String> {
